@@ -8,6 +8,8 @@ CONSTANTS
   DedupKeys = FALSE
   AssembleByArrival = FALSE
   FoldUnsynchronised = FALSE
+  FailKeys = {"b1"}
+  MsetIgnoresChildErrors = FALSE
 INVARIANTS EqualsReference StoreIsReference ChildAtOwner
 PROPERTIES AllDone
 CHECK_DEADLOCK FALSE
